@@ -191,6 +191,14 @@ fn o9_1_run_backslash() {
     long_run(3, 30, 16, 16);
 }
 
+//@ harness: o6_5_run_backslash_far props=C06,C09 tier=thorough obl=O6.5 timeout=2400 mem=14
+//@ desc: backslash family far down the page: run of k cells (1..12) at any lattice origin within 4000x2600 cells (the offsets at which seeded change C06-2A - shoelace determinant on absolute coordinates in is_collinear - loses f32 precision) merges with the next cell's segment into the exact hull: line merging does not depend on where on the page the drawing sits
+//@ encodes: Line::merge, Line::can_merge, Line::is_touching, util::is_collinear, parry Segment::contains_point
+#[kani::proof]
+#[kani::stub(std::io::_print, crate::kstub::noop_print)]
+fn o6_5_run_backslash_far() {
+    long_run(3, 12, 4000, 2600);
+}
 //@ harness: o9_1_run_horizontal_400 props=C09,C03 tier=thorough obl=O9.1 timeout=3000 mem=14
 //@ desc: horizontal family, k symbolic 1..400, origin within 400x200 cells
 //@ encodes: Line::merge, Line::can_merge, util::is_collinear
